@@ -168,7 +168,7 @@ func (e *env) apply(s step) {
 		e.rpc[s.C-1][s.R-1].cancel()
 	case "finish":
 		e.rpc[s.C-1][s.R-1].release <- s.K
-	case "gstop":
+	case "gstop", "gfinish":
 		e.gs.Store(1)
 		go func() {
 			e.srv.GracefulStop()
@@ -178,6 +178,11 @@ func (e *env) apply(s step) {
 			e.gsrun.Store(int32(n))
 			e.gs.Store(2)
 		}()
+		if s.A == "gfinish" {
+			// a reader goroutine is parked in the handler quota: the GOAWAY can only be written once a
+			// handler of that connection returns, so both happen in one settled step
+			e.rpc[s.C-1][s.R-1].release <- s.K
+		}
 	case "hstop", "fstop":
 		if s.A == "fstop" {
 			close(e.obey)
@@ -256,7 +261,8 @@ func TestVerifC25Replay(t *testing.T) {
 	}
 	defer tr.Close()
 	nc, nr, limit := vlib.EnvInt("VERIF_NC", 2), vlib.EnvInt("VERIF_NR", 2), vlib.EnvInt("VERIF_LIMIT", 1)
-	for _, ln := range lines {
+	for i, ln := range lines {
+		fmt.Printf("behaviour %d: %s\n", i, ln) // shown only when the driver fails (hang diagnosis)
 		var steps []step
 		if err := json.Unmarshal(ln, &steps); err != nil {
 			t.Fatal(err)
